@@ -380,6 +380,13 @@ class Node(object):
             import numpy as np
             at = self.atom(tbl, ref)
             return canon(at.xray.f0(np.array(Q) if isinstance(Q, list) else Q))
+        if which == "cromermann":
+            # the module-level form-factor functions, called with a symbol (and perhaps a charge)
+            sym, Q, charge = a
+            import numpy as np
+            cm = self.module("periodictable.cromermann")
+            Q = np.array(Q) if isinstance(Q, list) else Q
+            return canon([cm.fxrayatq(sym, Q, charge), cm.fxrayatstol(sym, Q / (4 * np.pi), charge)])
         if which == "mass":
             (s,) = a
             f = self._formula(tbl, s)
